@@ -2,6 +2,7 @@
 from __future__ import annotations
 
 from kfv.core import Ctx
+from kfv.rules import memo_rules as MEMO
 from kfv.rules import role_rules as RO
 from kfv.rules import tensor_rules as TR
 from kfv.rules import coh_rules as C
@@ -28,3 +29,5 @@ def run(ctx: Ctx) -> None:
     ctx.do(C.rule_excl_hook)
     ctx.do(TR.rule_tt_comm)
     ctx.do(RO.rule_roles)
+    ctx.do(MEMO.rule_memo)
+    ctx.do(C.rule_cfg_fwd)
